@@ -67,6 +67,20 @@ Theorem c11_eig_paths_same_space (W F K : IPS) (Fm : F -> W) (Fmt : W -> F) (Km 
   forall v, (M v = v /\ Fmt v = vzero) <-> exists z, v = Km z /\ Kmt (M (Km z)) = z.
 Proof. exact (complement_complete W F K Fm Fmt Km Kmt M). Qed.
 
+(** symmetry operations supplied in any order, and whichever operation of a rotation class comes first in the listing (the
+    unique-rotation scan keeps the first): the averaged operator applied to a translation-invariant vector is the same *)
+From SymfcV Require CosetAvg.
+Theorem c11_operation_order_irrelevant (W : IPS) (ops ops' : list (W -> W)) v :
+  Permutation.Permutation ops ops' -> avg W ops v = avg W ops' v.
+Proof. exact (CosetAvg.avg_order_irrelevant W ops ops' v). Qed.
+Print Assumptions c11_operation_order_irrelevant.
+Theorem c11_choice_of_representative_irrelevant (W : IPS) (reps reps' trans : list (W -> W)) v :
+  (forall t, In t trans -> t v = v) ->
+  Forall2 (fun r r' : W -> W => exists t, In t trans /\ forall w, r' w = r (t w)) reps reps' ->
+  avg W reps' v = avg W reps v.
+Proof. exact (CosetAvg.avg_choice_of_representative W reps reps' trans v). Qed.
+Print Assumptions c11_choice_of_representative_irrelevant.
+
 (** Log level: every statement of the library guarded by a test on `verbose` / `log_level` is a print (regenerated
     from all source files on every run), so the log level cannot change a result. *)
 Theorem c11_log_level_in_force : log_level_guards_only_prints = true.
